@@ -762,12 +762,12 @@ func (viso *VirtualISO) Seek(offset int64, whence int) (int64, error) {
 	case io.SeekCurrent:
 		offset += int64(viso.offset)
 	case io.SeekEnd:
-		offset = int64(viso.totalSize) - offset - 1
+		offset += int64(viso.totalSize)
 	default:
 		return 0, syscall.EINVAL
 	}
 
-	if offset < 0 || sizeBytes(offset) > viso.totalSize {
+	if offset < 0 {
 		return 0, afero.ErrOutOfRange
 	}
 
